@@ -1,7 +1,8 @@
 """C09 concrete harness (runs under /venv/bin/python with PYTHONPATH=/repo).  Labelled *bounded*.
 
 Construction over a corpus of class hierarchies (spec parent with a key, plain subclass overriding a default, spec subclass
-adding / re-declaring attributes, parent with a user-written constructor, overflow attribute, __post_init__ counters): every
+adding / re-declaring attributes, parent with a user-written constructor, inherited init=False default, plain class
+between two spec classes, diamond of spec classes, overflow attribute, __post_init__ counters): every
 subset of keyword arguments; the constructed state against a reference resolution written from the statement.
 Stand-in for phase 1 of InitMethod.init (routing through parent constructors), the generated signature and overflow.
 """
@@ -62,6 +63,52 @@ class Overflow:
     options: Dict[str, Any] = {}
 
 
+@spec_class(bootstrap=True)
+class Hidden:                      # an attribute that is no constructor argument but has a default
+    x: int = Attr(default=3, init=False)
+    y: int = 1
+
+
+@spec_class(bootstrap=True)
+class HiddenChild(Hidden):
+    z: int = 2
+
+
+@spec_class(bootstrap=True)
+class SandBase:
+    x: int = 1
+    v: List[int] = [0]
+
+
+class SandMid(SandBase):           # plain class between two spec classes
+    x = 2
+
+
+@spec_class(bootstrap=True)
+class Sandwich(SandMid):
+    w: int = 0
+
+
+@spec_class(bootstrap=True)
+class DiaRoot:
+    x: int = 1
+
+
+@spec_class(bootstrap=True)
+class DiaLeft(DiaRoot):
+    a: int = 0
+
+
+@spec_class(bootstrap=True)
+class DiaRight(DiaRoot):
+    x = 5
+
+
+@spec_class(bootstrap=True)
+class Diamond(DiaLeft, DiaRight):
+    d: int = 0
+
+
 def prep(cls):
     return cls
 
@@ -72,6 +119,10 @@ CASES = [
     (Plain, ("k",), {"n": 3, "tags": ["t"], "nodefault": 4}, {"name": None, "n": 5, "tags": ["plain"], "nodefault": MISSING}),
     (Child, ("k",), {"n": 3, "tags": ["t"], "extra": "x"}, {"name": None, "n": 9, "tags": ["base"], "nodefault": MISSING, "extra": "e"}),
     (CustomChild, (), {"a": 4, "b": 5, "c": 6}, {"a": 1, "b": 7, "c": 3}),
+    (HiddenChild, (), {"y": 5, "z": 6}, {"x": 3, "y": 1, "z": 2}),
+    (Sandwich, (), {"x": 7, "v": [4], "w": 4}, {"x": 2, "v": [0], "w": 0}),
+    (SandMid, (), {"x": 7, "v": [4]}, {"x": 2, "v": [0]}),
+    (Diamond, (), {"x": 7, "a": 4, "d": 3}, {"x": 5, "a": 0, "d": 0}),
 ]
 
 
